@@ -135,6 +135,7 @@ type Machine struct {
 	inAssert  bool
 	clock     *sym.Term
 	rpc       map[*Value]*rpcServer
+	httpS     *httpSide
 }
 
 func (m *Machine) freshName(base string) string {
